@@ -2,7 +2,7 @@
    implementation's outputs). *)
 From Coq Require Import NArith List Bool String.
 From DBG Require Import Interop.Val Spec.Dna Spec.GraphIndex Packed.ExtsModel Algo.Compress Algo.GraphModel
-  Algo.Recompress Check.RecompCheck.
+  Algo.Recompress Check.RecompCheck Check.RecompLooseCheck.
 Import ListNotations.
 Open Scope N_scope.
 
@@ -31,6 +31,10 @@ Definition recomp_ops : list (string * handler) :=
     ("chk.c09.valid_input"%string, fun a => match a with [VN k; st; g] =>
         match vbool st, rv_graph g with
         | Some s, Some G => Some (ofbool (rvalidb rpay (N.to_nat k) s G)) | _, _ => None end | _ => None end);
+    ("chk.c09.valid_input_loose"%string, fun a => match a with [VN k; st; g] =>
+        match vbool st, rv_graph g with
+        | Some s, Some G => Some (ofbool (rvalid_looseb rpay (N.to_nat k) s G))
+        | _, _ => None end | _ => None end);
     ("chk.c09.kmers"%string, fun a => match a with [VN k; st; g; c; o] =>
         match vbool st, rv_graph g, rv_censor c, rv_graph o with
         | Some s, Some G, Some C, Some Og => Some (ofbool (chk_kmers rpay (N.to_nat k) s G C Og))
